@@ -73,11 +73,17 @@ def exercise(V, scheme, nfff, target, proj, tmc, obs_kinds, repeat=False, unsort
         o["interpolation_xgrid"] = [1.0, 1e-3, 0.5, 0.1]  # admissible: eko sorts the nodes
     o["ProjectileDIS"] = proj
     # points listed in DEcreasing-then-increasing Q2 (the runner computes in Q2 order; the card must stay as given), keys in both orders
-    o["observables"] = {k: [dict(x=0.1, Q2=2 * V["Q2"]), dict(Q2=V["Q2"], x=0.5), dict(x=0.3, Q2=1.5 * V["Q2"])] for k in obs_kinds}
+    # every observable has its own points (distinct x), one of them listed twice
+    # (Q2 values are concrete so that sorting the points costs no decisions; the thresholds they are compared with stay symbolic)
+    o["observables"] = {k: [dict(x=0.1 + 0.01 * i_, Q2=30.0), dict(Q2=10.0, x=0.5 + 0.01 * i_), dict(x=0.3 + 0.01 * i_, Q2=20.0),
+                            dict(x=0.1 + 0.01 * i_, Q2=30.0)] for i_, k in enumerate(obs_kinds)}
     if any(k.startswith("XS") for k in obs_kinds):
         for k in obs_kinds:
             if k.startswith("XS"):
-                o["observables"][k] = [dict(x=0.1, Q2=V["Q2"], y=0.4)]
+                o["observables"][k] = [dict(x=0.15, Q2=25.0, y=0.4), dict(x=0.25, Q2=12.0, y=0.6)]
+    if unsorted_grid and o.get("prDIS", "EM") != "CC":
+        # the CKM matrix in another admissible spelling: a float array (it is not used by EM/NC runs, but it is the caller's object)
+        t["CKM"] = np.array([float(v_) for v_ in str(t["CKM"]).split()], dtype=float)
     if drop is not None:
         # a card that omits one optional key (yadism supplies a default) is as admissible as a complete one
         (t if drop[0] == "theory" else o).pop(drop[1])
@@ -121,6 +127,8 @@ def exercise(V, scheme, nfff, target, proj, tmc, obs_kinds, repeat=False, unsort
             res.append(("output projectilePID matches the projectile", out["projectilePID"] == PROJ[o.get("ProjectileDIS", "electron")]))
             for k in obs_kinds:
                 res.append((f"output has one result per requested point [{k}]", len(out[k]) == len(o["observables"][k])))
+                res.append((f"result i belongs to point i of the card [{k}]", len(out[k]) == len(o["observables"][k]) and all(
+                    r_ is not None and float(r_.x) == float(p_["x"]) for r_, p_ in zip(out[k], o["observables"][k]))))
     return res
 
 
@@ -187,7 +195,8 @@ def run(chk, only=None):
         for ci, (scheme, nfff, target, proj, tmc) in enumerate(cells):
             tgt = TARGET_SPELLINGS[target]
             # full names, a bare kind (= kind_total) and a cross section: every admissible spelling must be echoed as given
-            obs = ["F2_total", "FL_charm", "F3"] if ci % 2 else ["F2_light", "XSHERANC_total", "FL"]
+            # ... and BOTH spellings of one observable side by side (two independent entries of the card)
+            obs = ["F2_total", "FL_charm", "F3", "F3_total"] if ci % 2 else ["F2_light", "XSHERANC_total", "FL", "FL_total"]
             cname = f"runner:{scheme}/NfFF={nfff}/target={tgt}/{proj}/TMC={tmc}"
             if not chk.mine(cname):
                 continue
